@@ -56,6 +56,7 @@ class Overlay:
         self.fns = []         # functions under contract: (file, needle)
         self.contracts = []   # (needle, [attr lines])
         self.harnesses = []
+        self.cfg = "any(kani, verif_replay)"
         self.text = open(path).read()
         self._parse()
 
@@ -68,6 +69,8 @@ class Overlay:
             s = lines[i].strip()
             if s.startswith("// @target "):
                 self.target = s[len("// @target "):].strip()
+            elif s.startswith("// @cfg "):
+                self.cfg = s[len("// @cfg "):].strip()
             elif s.startswith("// @module "):
                 self.modname = s[len("// @module "):].strip()
             elif s.startswith("// @fn "):
@@ -148,7 +151,7 @@ class Overlay:
 """
         return (
             f"\n\n// ---- appended by /verif overlay ({os.path.relpath(self.path, VERIF)}) ----\n"
-            f"#[cfg(any(kani, verif_replay))]\n#[allow(warnings, clippy::all)]\n"
+            f"#[cfg({self.cfg})]\n#[allow(warnings, clippy::all)]\n"
             f"pub(crate) mod {self.modname} {{\n#[allow(unused_imports)] use crate::{{verif_cover, verif_split3, verif_split5}};\n" + "\n".join(out) + entry + "}\n"
         )
 
